@@ -35,8 +35,9 @@ H("C15", "wmo", _WW, "quick", "canary", ["c15_writer_canary"], ["writer::WmoWrit
 H("C15", "wmo", _WP, "quick", "probe", [
     "c15p_materials_roundtrip", "c15p_header_roundtrip", "c15p_lights_roundtrip", "c15p_portal_refs_roundtrip", "c15p_portals_roundtrip",
     "c15p_visible_lists_roundtrip", "c15p_doodad_defs_roundtrip", "c15p_doodad_name_offset_witness", "c15p_doodad_sets_roundtrip",
-    "c15p_group_info_roundtrip_1", "c15p_group_names_witness", "c15p_skybox_witness", "c15p_textures_roundtrip",
-], ["parser::WmoParser::*"], "probe", "probe", timeout=1200)
+    "c15p_group_info_roundtrip_1", "c15p_group_names_witness", "c15p_skybox_witness", "c15p_parse_root_concrete", "c15p_root_bbox_witness",
+], ["parser::WmoParser::*"], "probe", "probe", timeout=900)
+H("C15", "wmo", _WP, "thorough", "probe", ["c15p_textures_roundtrip"], ["parser::WmoParser::*"], "probe", "probe", timeout=1500)
 H("C15", "wmo", _WP, "quick", "canary", ["c15_parser_canary"], ["writer::WmoWriter::write_root"], "vacuity twin", "-", expect="canary", timeout=600)
 H("C15", "wmo", _WC, "quick", "probe", ["c15e_convert_root_preserves_content", "c15e_convert_group_preserves_content"], ["converter::*"], "probe", "probe", timeout=600)
 H("C15", "wmo", _WC, "quick", "canary", ["c15_converter_canary"], ["converter::WmoConverter::convert_root"], "vacuity twin", "-", expect="canary", timeout=600)
